@@ -790,6 +790,11 @@ func (e *CoreExtension) functionDump(args ...interface{}) (interface{}, error) {
 		if i > 0 {
 			result.WriteString(", ")
 		}
+		if containsItself(reflect.ValueOf(arg), 0, nil) {
+			// fmt never finishes on a value that contains itself
+			result.WriteString(formatWithoutAddresses(arg))
+			continue
+		}
 		result.WriteString(fmt.Sprintf("%#v", arg))
 	}
 
@@ -2373,6 +2378,21 @@ func (e *CoreExtension) filterFormat(value interface{}, args ...interface{}) (in
 		return formatString, nil
 	}
 
+	// fmt never finishes on a value that contains itself: hand it the printed form
+	for i, arg := range args {
+		if containsItself(reflect.ValueOf(arg), 0, nil) {
+			safe := make([]interface{}, len(args))
+			copy(safe, args)
+			for j := i; j < len(safe); j++ {
+				if containsItself(reflect.ValueOf(safe[j]), 0, nil) {
+					safe[j] = formatWithoutAddresses(safe[j])
+				}
+			}
+			args = safe
+			break
+		}
+	}
+
 	// Apply formatting
 	return fmt.Sprintf(formatString, args...), nil
 }
@@ -2417,7 +2437,7 @@ func (e *CoreExtension) filterSpaceless(value interface{}, args ...interface{}) 
 	}
 
 	// Convert to string if not already
-	str := fmt.Sprintf("%v", value)
+	str := toString(value)
 	if str == "" {
 		return "", nil
 	}
